@@ -47,13 +47,13 @@ def run(tier):
     tmo = 150 if tier == "quick" else 900
     jobs = []
     for dt in dts:
-        maxstop = 3 if (dt >= 0.25 or tier != "quick") else 2
+        maxstop = 3
         for st in range(0, maxstop + 1):
             for col in (0, 1):
                 jobs.append((HFILE, "_whole", tmo, {"C12_DT": repr(dt), "C12_START": str(st), "C12_COLLECT": str(col),
                                                     "C12_MAXSTOP": str(maxstop)}, ("whole", dt)))
         jobs.append((HFILE, "_single", tmo, {"C12_DT": repr(dt)}, ("single", dt)))
-        if dt >= 0.5 or tier != "quick":
+        if dt >= 0.2 or tier != "quick":
             jobs.append((HFILE, "_deletion", tmo, {"C12_DT": repr(dt)}, ("deletion", dt)))
     jobs.append((HFILE, "_whole_twin", 60, {"C12_DT": "1.0"}, ("twin", 1.0)))
     jobs.append((HFILE_MUT, "_whole", 120, {"C12_DT": "0.5"}, ("canary", 0.5)))
@@ -91,7 +91,7 @@ def run(tier):
             rep.inconcl("%s: CrossHair verdict %s (%s)" % (label, r.verdict, r.message[:200]))
         if len(samples) < 8:
             samples.append({"condition": label, "verdict": r.verdict, "seconds": round(r.seconds, 1), "message": r.message[:160]})
-    rep.assume("quick tier: stop <= 2 for dt < 0.25", "start 0..3, stop 1..3 (stop = 0 divides by zero in the progress computation and is outside), population 0..3, collect_data symbolic",
+    rep.assume("start 0..3, stop 1..3 (stop = 0 divides by zero in the progress computation and is outside), population 0..3, collect_data symbolic",
                "dt concrete per condition: %s" % dts,
                "instrumented Model/Agent/DataCollector subclasses only log and delegate",
                "HybridRunner.run_scenario's thread-per-scenario skip logic is outside (needs wall-clock thread progress)")
